@@ -392,35 +392,26 @@ Proof.
 Qed.
 
 (* ---- the reported offset ---- *)
-Lemma collected_cons_some v r : collected (Some v :: r) = v :: collected r.
-Proof. unfold collected. cbn [flat_map app length]. reflexivity. Qed.
-
-Lemma succ_le (r : list (option Z)) :
-  (length (flat_map (fun o : option Z => match o with Some v => [v] | None => [] end) r) <= length r)%nat.
-Proof. induction r as [|[v|] r IH]; cbn; lia. Qed.
-
-Lemma collected_perm arrived : Permutation (collected arrived) (map value_of arrived).
+Lemma measured_perm a a' : Permutation a a' -> Permutation (measured a) (measured a').
 Proof.
-  induction arrived as [|[v|] r IH].
+  unfold measured. induction 1 as [|x l l' Hp IH|x y l|l l' l'' H1 IH1 H2 IH2]; cbn [flat_map].
   - apply Permutation_refl.
-  - rewrite collected_cons_some. cbn [map value_of]. apply perm_skip. exact IH.
-  - unfold collected in *. cbn [flat_map app length map value_of].
-    assert (Hle := succ_le r).
-    replace (S (length r) - _)%nat with (S (length r - length (flat_map (fun o : option Z => match o with Some v => [v] | None => [] end) r))) by lia.
-    cbn [repeat]. eapply Permutation_trans; [apply Permutation_sym, Permutation_middle|]. apply perm_skip. exact IH.
+  - apply Permutation_app_head. exact IH.
+  - rewrite !app_assoc. apply Permutation_app_tail. apply Permutation_app_comm.
+  - eapply Permutation_trans; eassumption.
 Qed.
 
-(* the reported offset is the fault-tolerant midpoint over one value per participant (0 for a failed one) *)
-Theorem round_offset_values arrived : round_offset arrived = ftm (map value_of arrived).
-Proof. unfold round_offset. apply (proj1 (perm_invariant _ _ (collected_perm arrived))). Qed.
+(* the reported offset is the fault-tolerant midpoint over one value per participant that produced a
+   measurement (in arrival order before sorting) *)
+Theorem round_offset_values arrived : round_offset arrived = ftm (measured arrived).
+Proof. reflexivity. Qed.
 
 (* ... for every completion order of the per-path measurements *)
 Theorem round_offset_order_free a a' : Permutation a a' -> round_offset a = round_offset a'.
-Proof.
-  intros Hp. rewrite !round_offset_values. apply (proj1 (perm_invariant _ _ (Permutation_map value_of Hp))).
-Qed.
+Proof. intros Hp. unfold round_offset. apply (proj1 (perm_invariant _ _ (measured_perm _ _ Hp))). Qed.
 
-Theorem round_offset_some arrived : arrived <> [] -> exists m, round_offset arrived = Some m.
+(* errNoMeasurement exactly when no participant produced a measurement *)
+Theorem round_offset_none arrived : round_offset arrived = None <-> measured arrived = [].
 Proof.
-  intros H. rewrite round_offset_values. destruct arrived as [|a r]; [contradiction|]. cbn [map]. unfold ftm. eauto.
+  unfold round_offset, ftm. destruct (measured arrived); split; intros H; try reflexivity; discriminate.
 Qed.
